@@ -209,6 +209,10 @@ func (cs *Contracts) loadContractFile(path, pkgPath string) error {
 			}
 			sf.File, sf.Line = path, lineNo
 			sf.PkgPath = pkgPath
+			if prev, dup := cs.SpecFns[sf.Name]; dup {
+				// one global namespace: a second definition would silently replace the first in every contract
+				return fmt.Errorf("%s:%d: spec function %s is already defined at %s:%d", path, lineNo, sf.Name, prev.File, prev.Line)
+			}
 			cs.SpecFns[sf.Name] = sf
 			cur = nil
 			continue
